@@ -17,20 +17,27 @@ variable (d : Triangular ℝ)
 theorem triangular_pdf_zero_outside (x : ℝ) (hx : x ∉ Icc d.f_min d.f_max)
     (h1 : d.f_min ≤ d.f_mode) (h2 : d.f_mode ≤ d.f_max) : Triangular.pdf d x = 0 := by
   unfold Triangular.pdf; lit_norm
-  have hA : ¬ (d.f_min ≤ x ∧ x ≤ d.f_mode) := fun hc => hx ⟨hc.1, hc.2.trans h2⟩
+  have hE : ¬ (x = d.f_mode) := fun hc => hx ⟨hc ▸ h1, hc ▸ h2⟩
+  have hA : ¬ (d.f_min ≤ x ∧ x < d.f_mode) := fun hc => hx ⟨hc.1, hc.2.le.trans h2⟩
   have hB : ¬ (d.f_mode < x ∧ x ≤ d.f_max) := fun hc => hx ⟨h1.trans hc.1.le, hc.2⟩
-  simp [hA, hB]
+  simp [hE, hA, hB]
 
 theorem triangular_pdf_left (x : ℝ) (hx : x ∈ Ioo d.f_min d.f_mode) :
     Triangular.pdf d x = 2 * (x - d.f_min) / ((d.f_max - d.f_min) * (d.f_mode - d.f_min)) := by
   unfold Triangular.pdf; lit_norm
-  simp [hx.1.le, hx.2.le]
+  simp [hx.1.le, hx.2, hx.2.ne]
 
 theorem triangular_pdf_right (x : ℝ) (hx : x ∈ Ioo d.f_mode d.f_max) :
     Triangular.pdf d x = 2 * (d.f_max - x) / ((d.f_max - d.f_min) * (d.f_max - d.f_mode)) := by
   unfold Triangular.pdf; lit_norm
-  have hA : ¬ (d.f_min ≤ x ∧ x ≤ d.f_mode) := fun hc => absurd hc.2 (not_le.mpr hx.1)
-  simp [hA, hx.1, hx.2.le]
+  have hA : ¬ (d.f_min ≤ x ∧ x < d.f_mode) := fun hc => absurd hc.2 (not_lt.mpr hx.1.le)
+  simp [hA, hx.1, hx.1.ne', hx.2.le]
+
+/-- at the mode itself (a single point, so irrelevant to the integrals below) the density is
+    `2/(max-min)` — also when `mode = min` or `mode = max` -/
+theorem triangular_pdf_at_mode : Triangular.pdf d d.f_mode = 2 / (d.f_max - d.f_min) := by
+  unfold Triangular.pdf; lit_norm
+  simp
 
 variable (h : d.f_min < d.f_max) (h1 : d.f_min ≤ d.f_mode) (h2 : d.f_mode ≤ d.f_max)
 include h h1 h2
